@@ -123,3 +123,4 @@ m("C13", ["R26"], B, "                while n_pos > 0 {\n                    if 
 m("C13", ["R26"], B, "                while n_pos > 0 {\n                    if (n_pos & 1) != 0 {\n                        result *= &value;\n                    }\n                    value *= value;\n                    n_pos >>= 1;\n                }", "                loop {\n                    n_pos >>= 1;\n                    if n_pos == 0 {\n                        break;\n                    }\n                    if (n_pos & 1) != 0 {\n                        result *= &value;\n                    }\n                    value *= value;\n                }", "powi loop with an early break that drops the lowest bit")
 m("C13", ["R26"], B, "                while n_pos > 0 {\n                    if (n_pos & 1) != 0 {\n                        result *= &value;\n                    }\n                    value *= value;\n                    n_pos >>= 1;\n                }", "                loop {\n                    if (n_pos & 1) != 0 {\n                        result *= &value;\n                    }\n                    n_pos >>= 1;\n                    value *= value;\n                    if n_pos == 0 {\n                        break;\n                    }\n                    result *= &value;\n                }", "powi loop with an early break and one multiplication too many per pass")
 m("C14", ["R33", "R36"], EX, "            let z = self - y / 2.0;", "            let z = self - y * 0.25;", "exp reduction subtracts y/4 (multiplication by a different power of two)")
+m("C14", ["R36"], EX, "assert!(n.abs() <= 32);", "assert!(n.abs() <= 31);", "table assertion tighter than the reduction guarantees (code panics are left to the totality rule by the form rule)")
